@@ -313,7 +313,13 @@ class DGen:
                 tgt.append(u[1][0])
         body.extend(opq)
         body.append(A.End())
-        proc = A.Proc('sub', 'zq', [], False, [A.Print([A.Str('p')])])
+        pbody = [A.Print([A.Str('p')])]
+        if self.chance(0.5):
+            # a label (or line number) of its own inside the procedure
+            pbody = [A.LabelDef(self.pick(['pl9z', 7000])),
+                     A.Print([A.Str('p')])]
+            self.note('label_inside_procedure')
+        proc = A.Proc('sub', 'zq', [], False, pbody)
         if after_proc:
             self.note('data_after_procedure')
             return A.Program(body + [proc] + after_proc)
